@@ -7,3 +7,7 @@ var vOnMark func(path string, chunkSize uint32, idx uint32, chunkLen uint32)
 // vRecvYield is called by the replay-instrumented copy of the stream reader right before it registers
 // as a waiter for a file that was not announced yet (native replays widen that window with it).
 var vRecvYield = func() {}
+
+// vFinalizeYield is called by the replay-instrumented copy of multistream.go before every FileDoneFn
+// callback site (native replays widen the window in which a file is being finalised).
+var vFinalizeYield = func() {}
